@@ -194,7 +194,12 @@ def fam_linepair(c, tier):
     v0 = (-vgap - ho) if below else (hv + vgap)
     other = _line("de", offl, W + offr, v0, ho)
     glyphs = viewer + other if viewer_first else other + viewer
-    return {"family": "linepair", "glyphs": glyphs, "params": (Q(1, 2), Q(1), lm, Q(1, 4), Q(1, 2)), "judge_space": True, "extra_scales": ()}
+    g = {"family": "linepair", "glyphs": glyphs, "params": (Q(1, 2), Q(1), lm, Q(1, 4), Q(1, 2)), "judge_space": True, "extra_scales": ()}
+    # lines that are neighbours by half a unit: also translate the page content so that the near edge of the
+    # other line lies exactly on a boundary of Plane's 50-unit grid (grid lines must not influence the outcome)
+    if vgap == d - H2 and c.pick([False, True], "near edge on a grid line"):
+        g["anchor_v"] = (-vgap) if below else (hv + vgap)
+    return g
 
 
 def fam_linepair_shift(c, tier):
@@ -259,8 +264,10 @@ def fam_columns(c, tier):
     nlines = c.pick([1, 2], "lines per cell")
     if nlines == 2 and pitch == 16:
         raise Abort()
+    # single column: the top cell may be much wider than the others (same left edge)
+    wide = c.pick([0, 64], "extra width of the top cell") if (ncol == 1 and nrow >= 2) else 0
     cells = []  # column-major, top to bottom
-    letters = "abcdefghijklmnopqrstuvwx"
+    letters = "abcdefghijklmnopqrstuvwxyzABCDEFGHIJKLMNOPQRSTUVWXYZ"
     k = 0
     for col in range(ncol):
         for row in range(nrow):
@@ -269,7 +276,7 @@ def fam_columns(c, tier):
             gl = []
             for ln in range(nlines):
                 # lines of a cell are 10 apart (gap 2 < line_margin * 8): one paragraph
-                gl += _line(letters[k:k + 2], u0, u0 + 16, vtop - 8 - ln * 10, 8)
+                gl += _line(letters[k:k + 2], u0, u0 + 16 + (wide if row == 0 else 0), vtop - 8 - ln * 10, 8)
                 k += 2
             cells.append(gl)
     perm = c.pick(_orders(len(cells)), "content order")
@@ -306,9 +313,9 @@ META = {
         "{1/4,1/2,3/4} x char_margin {1/2,1,2} x word_margin {1/8,1/4,1/2}); pair-special (nested extents with line_overlap up to 1; "
         "word_margin=0); triple (joins decided on consecutive glyphs, third glyph also placed back at the first); linepair "
         "(two lines: vertical gap, height difference and start/end/centre offsets each on/below/above line_margin*height "
-        "of the viewing line, either line viewing, either content order; proper-overlap shift family); chain (three lines of "
+        "of the viewing line, either line viewing, either content order; neighbours-by-half-a-unit also translated so that the near edge lies on a line of Plane's 50-unit grid; proper-overlap shift family); chain (three lines of "
         "heights 8/16 with gaps around both tolerances, all 6 content orders: connected components of an asymmetric "
-        "relation); columns (1-2 columns x 1-3 rows, 1-2 lines per cell, boxes_flow {1/4,1/2,3/4}, content orders). Every "
+        "relation); columns (1-2 columns x 1-3 rows, 1-2 lines per cell, single column also with a wide top cell, boxes_flow {1/4,1/2,3/4}, content orders). Every "
         "family except columns is run in horizontal writing (detect_vertical=False) and mirrored into vertical writing "
         "(detect_vertical=True). Every arrangement is analysed at scale 1 and at 2^k, k in {-3,-1,1,4} (k=7 and k=10 on "
         "stated sub-families). A case is one arrangement with its LAParams (distinct by construction); non-trivial = the "
@@ -345,7 +352,13 @@ def materialise(gen, orient):
         boxes.append((t, x0, y0, x1 - x0, y1 - y0))
     mx = min(b[1] for b in boxes)
     my = min(b[2] for b in boxes)
-    boxes = [(t, x0 - mx + 16, y0 - my + 16, w, h) for t, x0, y0, w, h in boxes]
+    sx = sy = Q(0)
+    if "anchor_v" in gen:
+        if orient == "H":
+            sy = (-(gen["anchor_v"] - my + 16)) % 50
+        else:
+            sx = (-(gen["anchor_v"] - mx + 16)) % 50
+    boxes = [(t, x0 - mx + 16 + sx, y0 - my + 16 + sy, w, h) for t, x0, y0, w, h in boxes]
     ext = max(max(b[1] + b[3] for b in boxes), max(b[2] + b[4] for b in boxes)) + 16
     P = 64
     while P < ext:
@@ -447,6 +460,35 @@ def judge(case):
     return problems, base, nontrivial, notj
 
 
+def _decisive_term(x, y, lm, direct):
+    """first documented quantity that sits exactly on its tolerance and whose strict/non-strict reading decides
+    whether the two lines are neighbours (from either line's point of view); None if no such quantity"""
+    order = ["close", "same", "start", "end", "centre", "along"]
+    names = {"close": "gap==d", "same": "height-difference==d", "start": "start-offset==d", "end": "end-offset==d",
+             "centre": "centre-offset==d", "along": "extents-touch"}
+    for a, b in ((x, y), (y, x)):
+        t = M.neighbour_terms(a, b, lm)
+        d = t["d"]
+        on = {
+            "close": t["gap"] == d,
+            "same": abs((b[3] - b[1]) - (a[3] - a[1])) == d,
+            "start": abs(b[0] - a[0]) == d,
+            "end": abs(b[2] - a[2]) == d,
+            "centre": abs((b[0] + b[2]) / 2 - (a[0] + a[2]) / 2) == d,
+            "along": b[2] == a[0] or a[2] == b[0],
+        }
+        other = M.neighbour(b, a, lm)
+        for k in order:
+            if not on[k]:
+                continue
+            u = dict(t)
+            u[k] = not u[k]
+            flipped = u["along"] and u["close"] and u["same"] and (u["start"] or u["end"] or u["centre"])
+            if (flipped or other) != direct:
+                return names[k]
+    return None
+
+
 def compare(case, rd, lines, boxes, obs, notj):
     problems = []
     orient = case["orient"]
@@ -527,25 +569,10 @@ def compare(case, rd, lines, boxes, obs, notj):
                 a, b = lines[i][0], lines[j][0]
                 if (eb[a] == eb[b]) != (ob[a] == ob[b]):
                     found = (a, b, eb[a] == eb[b])
-                    hits = []
-                    for x, y in ((lines[i][2], lines[j][2]), (lines[j][2], lines[i][2])):
-                        t = M.neighbour_terms(x, y, lm)
-                        d = t["d"]
-                        if t["gap"] == d:
-                            hits.append("gap==d")
-                        if abs((y[3] - y[1]) - (x[3] - x[1])) == d:
-                            hits.append("height-difference==d")
-                        if abs(y[0] - x[0]) == d:
-                            hits.append("start-offset==d")
-                        if abs(y[2] - x[2]) == d:
-                            hits.append("end-offset==d")
-                        if abs((y[0] + y[2]) / 2 - (x[0] + x[2]) / 2) == d:
-                            hits.append("centre-offset==d")
-                        if y[2] == x[0] or x[2] == y[0]:
-                            hits.append("extents-touch")
                     direct = M.neighbour(lines[i][2], lines[j][2], lm) or M.neighbour(lines[j][2], lines[i][2], lm)
-                    if hits:
-                        cause = "+".join(sorted(set(hits)))
+                    hit = _decisive_term(lines[i][2], lines[j][2], lm, direct)
+                    if hit:
+                        cause = hit
                     elif found[2] and not direct:
                         cause = "transitive"
                     break
@@ -605,7 +632,7 @@ def run_shard(shard, tier, st):
                 continue
             seen.add(sig)
             st.violation(sig, case, exp, obs, sig.split("/", 1)[1])
-        if first and pre and all(p == 0 for p in pre):
+        if first and pre and pre[-1] == 0:
             st.sample(case)
         first = False
     st.states += ex.states
